@@ -954,6 +954,8 @@ ME_CONFIGS = {
     "m=3,iso,thinning_only": dict(m=3, tips="iso", rho="thin_only"),
     "m=3,mixed,thinning_only": dict(m=3, tips="mixed", rho="thin_only", survival=True),
     "m=1,removal": dict(m=1, tips="mixed", rho="present", removal=0.4, survival=True),
+    "m=2,removal,boundary_on_psi_tip": dict(m=2, tips="serial", rho="none", removal=0.4, boundary_on_tip=True),
+    "m=3,removal,boundary_on_psi_tip,rho_present": dict(m=3, tips="mixed", rho="present", removal=0.7, boundary_on_tip=True, survival=True),
     "m=2,removal": dict(m=2, tips="serial", rho="none", removal=0.4),
     "m=3,removal=1": dict(m=3, tips="mixed", rho="present", removal=1.0),
 }
@@ -991,10 +993,16 @@ def _me_case(name, trial, seed, twin=None):
     x0 = G * (math.ceil(root / G) + rng.randint(1, 8))
     cand = [G * k + G / 3 for k in range(1, int(x0 / G) - 1)]
     cand = [c for c in cand if c < x0 - G / 2]
-    need = m - 1 - len(ev)
+    on_tip = []
+    if cfg.get("boundary_on_tip"):
+        serial = sorted({h for h in tips if h > 0.0})
+        if not serial:
+            return None
+        on_tip = [rng.choice(serial)]       # an epoch boundary exactly on the sampling time of a psi-sampled tip, no rho event there
+    need = m - 1 - len(ev) - len(on_tip)
     if need < 0 or len(cand) < need:
         return None
-    b = sorted([0.0] + ev + rng.sample(cand, need))
+    b = sorted([0.0] + ev + on_tip + rng.sample(cand, need))
     lam = [rng.uniform(0.5, 3.0) for _ in range(m)]
     mu = [rng.uniform(0.2, 2.0) for _ in range(m)]
     psi = [rng.uniform(0.1, 1.5) for _ in range(m)]
@@ -1488,6 +1496,8 @@ def obligations(tier, seed):
             sc("C09.refine.three_pieces[T=%d,tips=%dc+%ds,rho=%s]" % (T, n0, T - n0, mo), "scn_refine", (T, n0, mo, True, None, "generic", 3), cl)
         sc("C09.refine.removal[T=%d,tips=%dc+%ds,rho=%s]" % (T, n0, T - n0, mo), "scn_refine", (T, n0, mo, True, "sym", "generic"),
            cl + " (with removal probability)")
+        sc("C09.refine.removal[T=%d,tips=%dc+%ds,rho=%s,boundary=on_serial_tip]" % (T, n0, T - n0, mo), "scn_refine", (T, n0, mo, True, "sym", "tip0"),
+           cl + " (with removal probability, boundary exactly on a sampling time)")
     # an epoch of a model whose epochs carry DIFFERENT rates: the symbolic identity (scn_refine23) exceeds the normal-form budget
     # (B_i of the older epochs are nested rational functions of p_{i+1}); decided numerically only (bounded)
     for m in (2, 4, 8):
